@@ -71,7 +71,10 @@ CLAIM = dict(
          "and bisection searches over 60 nesting/chain shapes; outcome must be a template or TemplateSyntaxError with an "
          "in-source line, never another exception, a Python SyntaxError of the generated code, or a hang.",
     note="Trusted: Lean kernel; hand lexer model (tied by correspondence); the abstraction of sub-parsers; translator "
-         "for FailSites. Host-limit failures and the defects listed in known_findings.d/C01.json are known findings.",
+         "for FailSites; five allow-list entries (Symbols.ref, enter_frame, RootVisitor.generic_visit, Node.__init__, "
+         "i18n _parse_block) are justified by the direct oracle only, not by a theorem (DESIGN's symbols_ref_defined and "
+         "cg_idents_valid are not attempted). Host-limit failures and the defects listed in known_findings.d/C01.json are "
+         "known findings.",
     design_ref="§5 C01",
 )
 
@@ -485,8 +488,9 @@ def run(ctx, res):
                  "statements incl. block set with filters, call blocks, namespaces, required/scoped blocks, imports, i18n/do/"
                  "loopcontrols/debug tags; expression grammar with every operator, test, filter, slice, call form; a share "
                  "of deliberately broken pieces) each followed by token-level mutations (delete, duplicate, swap, replace, "
-                 "insert, truncate, turn into a delimiter); loaded with from_string (+ compile(raw) and Python compile() "
-                 "outside the exhaustive stage); non-trivial = contains at least one start delimiter or line prefix "
+                 "insert, truncate, turn into a delimiter); loaded with from_string (generated/mutated templates also with "
+                 "compile(raw=True) + Python compile()); the name/constant product runs in 4 of the environments in the quick "
+                 "tier; non-trivial = contains at least one start delimiter or line prefix "
                  "(distinct per task, summed). Plus lexer-vs-Lean-model comparison and the Lean shape oracle on the wrapped "
                  "token types, bisection of the least failing size of 60 nesting/chain shapes in fresh interpreters, and a "
                  "hang probe (20 s alarm) on generated templates and constant-folding bombs"),
